@@ -117,7 +117,8 @@ impl Checker {
             d.str(&inp.name);
             d.str(schedule);
             d.u64(instance);
-            d.u64(run.start);
+            d.u64(ctx.shard.0 as u64);
+            d.str(&ctx.profile);
             ctx.nontrivial(d.finish());
         }
         if run.end.wrapping_sub(run.start) > r.objects {
@@ -362,7 +363,7 @@ pub fn run(ctx: &mut Ctx, args: &Args) {
     ctx.rule = "a checked compilation (input x schedule instance) whose input feeds >= 50 entries into a hashed collection \
                 (measured: object ids allocated by the reference compilation = object-store entries; declared: regions / \
                 delta sets / tuples / classes / retained glyphs) or whose packing enters a stage beyond the Kahn sort \
-                (measured with the stage-trace hook). Digest = input name, schedule kind, instance, first object id."
+                (measured with the stage-trace hook). Digest = input name, schedule kind, schedule instance (round / thread / history index), process (profile, shard)."
         .into();
     ctx.assumptions = vec![
         "the object-id counter never wraps 2^64 (jumps are bounded; only relative order inside one compilation is specified)".into(),
